@@ -397,7 +397,7 @@ def rule_aspartix_grammar(ctx):
         none_err = False
         for e in errs:
             for c in conditions(b, e.bb):
-                if c.is_discr and not c.negated and c.values == ["0"]:
+                if c.is_discr and ((not c.negated and c.values == ["0"]) or (c.negated and c.values == ["1"])):
                     for o in origins(b, c.place, transparent=()):
                         if o.kind == "call" and o.site.bb == s_cp.bb:
                             none_err = True
